@@ -40,6 +40,7 @@ NAMES = ["w.gwl", "W.GWL", "other.gwl", "w.txt", "w", "w.gwlx"]
 
 class Harness(cm.BaseA):
     id = "C17"
+    fresh_quick = True  # every transition is re-executed from a fresh world (hidden state, aliasing)
     rule = (
         "every history of <= depth core events followed by any one event of the full alphabet over {emit one record "
         "of each type, save(str/Path) under .gwl and non-.gwl names, __enter__, __exit__ with and without an "
